@@ -31,6 +31,10 @@ class Inconclusive(BaseException):
   """Solver said unknown (never counted as success)."""
 
 
+class BudgetExceeded(BaseException):
+  """The job's wall-clock budget ran out in the middle of a path."""
+
+
 class Violation(BaseException):
   def __init__(self, label, model_values, note=''):
     BaseException.__init__(self, label)
@@ -924,6 +928,10 @@ class Explorer(object):
         self.frames += 1
       return e.val
     # fresh decision
+    if self.deadline and time.time() > self.deadline:
+      raise BudgetExceeded()
+    if len(self.log) > 20000:
+      raise Unsupported('path deeper than 20000 decisions (unbounded loop?)')
     c = z3.simplify(cond)
     aid = None
     if z3.is_true(c) or z3.is_false(c):
